@@ -32,6 +32,7 @@ type regProfile struct {
 	PageLimit     int  // server-imposed page size (0 = none)
 	LinkStyle     int  // 0 relative, 1 absolute, 2 relative with extra params, 3 absolute path only
 	EmptyPages    bool // every referrers page is preceded by an empty page that links to it
+	EchoSubject   bool // answers manifest PUTs with OCI-Subject although it has no Referrers API (a proxy, a half-upgraded replica)
 }
 
 type regRepo struct {
@@ -578,7 +579,7 @@ func (f *fakeRegistry) serveManifest(w http.ResponseWriter, r *http.Request, nam
 			Subject *ocispec.Descriptor `json:"subject"`
 		}
 		json.Unmarshal(data, &sub)
-		if sub.Subject != nil && f.prof.ReferrersAPI {
+		if sub.Subject != nil && (f.prof.ReferrersAPI || f.prof.EchoSubject) {
 			w.Header().Set("OCI-Subject", sub.Subject.Digest.String())
 		}
 		if f.prof.DigestHeaders {
